@@ -47,7 +47,15 @@ func HarnessC06Layout() {
 	bodies := make([]string, k)
 	for j := 0; j < k; j++ {
 		names[j] = symLetter("insert")
-		switch vChoice("form", 4) {
+		switch vChoice("form", 5) {
+		case 4:
+			// a string literal as the expression form is an expression like any other: the reserve shows what
+			// {{ "..." }} prints for it (string literals are escaped on output), not the raw literal
+			lit := "\"T&<" + string([]byte{byte('0' + j)}) + ">\""
+			page += "@insert(\"" + names[j] + "\", " + lit + ")"
+			printed, perr := EvaluateString("{{ "+lit+" }}", nil)
+			vAssert(perr == nil, "string-literal-prints")
+			bodies[j] = printed
 		case 3: // a block-form insert with nothing in it fills the reserve with nothing
 			page += "@insert(\"" + names[j] + "\")@end"
 			bodies[j] = ""
